@@ -68,14 +68,15 @@ def cases(tier):
 # entries for part (a): date order is the reverse of path order, so printed index != any fixed order
 # (one info file is hidden, one location contains a literal percent escape)
 ENTS = [('e0', '/home/u/w/d', '2024-01-01T00:00:00'), ('.e1', '/home/u/w/.c', '2024-01-02T00:00:00'),
-        ('e2', '/home/u/w/b%41', '2024-01-03T00:00:00'), ('e3', '/home/u/w/a', '2024-01-04T00:00:00')]
+        ('e2', '/home/u/w/b%41', '2024-01-03T00:00:00'), ('e3.trashinfo.x', '/home/u/w/a', '2024-01-04T00:00:00')]
+PAYLOADS_A = {'e0': 'ldang'}          # the first entry is a dangling symbolic link
 
 
 def run_a(c):
     W = scen.base_world(cwd='/home/u/w')
     ents = ENTS[:c['n']]
     for nm, loc, d in ents:
-        scen.add_trashed(W, TD, nm, quote(loc, '/'), d, payload='file', tag=nm)
+        scen.add_trashed(W, TD, nm, quote(loc, '/'), d, payload=PAYLOADS_A.get(nm, 'file'), tag=nm)
     with cell.Sandbox(W.spec()) as sb:
         before = sb.snapshot()
         r = sb.run(['trash-restore', '--sort', c['sort']], cwd='/home/u/w', stdin=c['reply'] + '\n')
